@@ -201,7 +201,7 @@ pub fn run_c09(run: &Run) {
             run.add_counts(st, st * 4, st, 0);
         }
     }
-    let nl: u64 = if quick { 54 } else { 540 };
+    let nl: u64 = if quick { 270 } else { 2700 };
     let res = run.par_family(
         &format!("large family L: {} programs x 3 sortings", nl),
         nl * 3,
